@@ -41,8 +41,8 @@ CHECKS = {
          "Exploration: after every step of a generated history each call must return the model's value for its script version and runtime, and per tag the tracked values must be alive exactly while something refers to them; at the end everything, machine code included, must have been released exactly once.",
          "Use-after-free of still-mapped JIT memory can go unnoticed (worker isolation catches crashes only); liveness tracked per tag; JIT memory is observed through the global allocator (page-aligned regions).",
          "DESIGN.md §4 C11"),
- "C12": ("multi-threaded stress of generated programs (2-8 threads x 50-200 calls on cloned handles, concurrent compile/drop threads) against the single-threaded results and host-call logs, with tracked-value accounting after join; plus rustc accept/reject probes of small embedding programs that try to share !Sync state",
-         "Exploration: for each generated program every concurrent call returned the single-threaded value and log and the tracked-value balance was zero after join; each of eleven probe programs is accepted or rejected by rustc as the property requires.",
+ "C12": ("multi-threaded stress of generated programs (2-8 threads x 50-200 calls on cloned handles, concurrent compile/drop threads) against the single-threaded results and host-call logs, with tracked-value accounting after join; plus rustc accept/reject probes of small embedding programs that try to share !Sync state (11 hand-written + an exhaustive generated grid of 396: kind of state x where the API lets it live x how two threads reach the compiled code; oracle: rejected for a Send/Sync reason iff the state is not thread-safe)",
+         "Exploration: for each generated program every concurrent call returned the single-threaded value and log and the tracked-value balance was zero after join; each of 407 probe programs is accepted or rejected by rustc as the property requires.",
          "The OS owns the schedule (sampled interleavings only); the probe list is finite and hand-written.",
          "DESIGN.md §4 C12"),
  "C13": ("generated module trees with shared name pools and probe functions holding references of every form; independent resolver (model) vs compiled behaviour; in-memory vs on-disk differential; get_function by module path",
